@@ -1,0 +1,361 @@
+//! Verification hooks, compiled only with `--cfg nucleo_verif`.
+//!
+//! * [`Sink`]: the harness installs one; every instrumented operation of the library reports to it
+//!   *before* it executes ([`Sink::pre`], may block: that is how a scheduler orders the operations of
+//!   different threads) and *after* it has executed ([`Sink::post`], with the observed value).
+//! * [`atomic`]: drop-in wrappers around the std atomics that report each operation together with the
+//!   memory ordering written in the source.
+//! * [`hit`]: named events at the steps of the tick / worker protocol and the non-atomic accesses of
+//!   the item vector.
+//! * facades for crate-private items ([`BoxcarVec`], [`par_quicksort`]).
+//!
+//! With no sink installed (or the guard off) behaviour is unchanged.
+
+use std::sync::atomic::{AtomicBool as StdAtomicBool, Ordering as StdOrdering};
+use std::sync::RwLock;
+
+/// One instrumented operation.
+#[derive(Debug, Clone)]
+pub struct Ev {
+    /// "atomic" for operations of the atomic shim, otherwise the name of the hook
+    pub site: &'static str,
+    /// address of the atomic / entry / allocation the operation acts on (0 if none)
+    pub addr: usize,
+    /// atomics: "load" | "store" | "fetch_add" | "cas"
+    pub op: &'static str,
+    /// atomics: success ordering as written in the source
+    pub ord: &'static str,
+    /// atomics: failure ordering of a cas ("" otherwise)
+    pub ord_fail: &'static str,
+    /// atomics: value loaded / stored / previous value; hooks: first argument
+    pub val: u64,
+    /// atomics: cas success; hooks: unused
+    pub ok: bool,
+    /// hooks: further arguments
+    pub args: [u64; 4],
+    /// source file of the call site (atomics)
+    pub file: &'static str,
+}
+
+pub trait Sink: Send + Sync {
+    /// called before the operation executes; may block the calling thread
+    fn pre(&self, ev: &Ev);
+    /// called right after the operation has executed
+    fn post(&self, ev: &Ev);
+    /// the calling thread is about to block in (`begin`) / has returned from (`!begin`) code that is not
+    /// instrumented (mutex, rayon join)
+    fn blocking(&self, begin: bool, site: &'static str);
+}
+
+static ENABLED: StdAtomicBool = StdAtomicBool::new(false);
+static SINK: RwLock<Option<&'static dyn Sink>> = RwLock::new(None);
+
+/// Installs (and leaks) a sink. Later calls replace the earlier sink.
+pub fn install(sink: Box<dyn Sink>) {
+    let leaked: &'static dyn Sink = Box::leak(sink);
+    *SINK.write().unwrap() = Some(leaked);
+    ENABLED.store(true, StdOrdering::SeqCst);
+}
+
+pub fn uninstall() {
+    ENABLED.store(false, StdOrdering::SeqCst);
+    *SINK.write().unwrap() = None;
+}
+
+#[inline]
+fn sink() -> Option<&'static dyn Sink> {
+    if !ENABLED.load(StdOrdering::Relaxed) {
+        return None;
+    }
+    *SINK.read().unwrap()
+}
+
+fn ord_name(o: StdOrdering) -> &'static str {
+    match o {
+        StdOrdering::Relaxed => "rlx",
+        StdOrdering::Acquire => "acq",
+        StdOrdering::Release => "rel",
+        StdOrdering::AcqRel => "acqrel",
+        StdOrdering::SeqCst => "sc",
+        _ => "?",
+    }
+}
+
+/// A named step: reported (and possibly delayed) before the code following the hook runs.
+#[inline]
+pub fn hit(site: &'static str, addr: usize, args: [u64; 4]) {
+    if let Some(s) = sink() {
+        let ev = Ev {
+            site,
+            addr,
+            op: "",
+            ord: "",
+            ord_fail: "",
+            val: args[0],
+            ok: true,
+            args,
+            file: "",
+        };
+        s.pre(&ev);
+        s.post(&ev);
+    }
+}
+
+#[inline]
+pub fn blocking(begin: bool, site: &'static str) {
+    if let Some(s) = sink() {
+        s.blocking(begin, site);
+    }
+}
+
+static COUNTERS: [std::sync::atomic::AtomicU64; 16] =
+    [const { std::sync::atomic::AtomicU64::new(0) }; 16];
+
+/// Cheap branch counters (no sink involved).
+#[inline]
+pub fn count(k: usize) {
+    COUNTERS[k].fetch_add(1, StdOrdering::Relaxed);
+}
+
+/// Reads and resets the branch counters.
+pub fn take_counters() -> [u64; 16] {
+    let mut out = [0; 16];
+    for (o, c) in out.iter_mut().zip(COUNTERS.iter()) {
+        *o = c.swap(0, StdOrdering::Relaxed);
+    }
+    out
+}
+
+/// Marks the region between its creation and its drop as blocking in uninstrumented code.
+pub struct Blocking(&'static str);
+impl Blocking {
+    #[inline]
+    pub fn new(site: &'static str) -> Self {
+        blocking(true, site);
+        Blocking(site)
+    }
+}
+impl Drop for Blocking {
+    #[inline]
+    fn drop(&mut self) {
+        blocking(false, self.0)
+    }
+}
+
+pub mod atomic {
+    //! `std::sync::atomic` look-alikes that report every operation to the installed sink.
+    use std::panic::Location;
+    use std::sync::atomic as sa;
+    pub use std::sync::atomic::Ordering;
+
+    use super::{ord_name, sink, Ev};
+
+    #[inline]
+    fn ev(
+        addr: usize,
+        op: &'static str,
+        ord: Ordering,
+        fail: Option<Ordering>,
+        val: u64,
+        ok: bool,
+        file: &'static str,
+    ) -> Ev {
+        Ev {
+            site: "atomic",
+            addr,
+            op,
+            ord: ord_name(ord),
+            ord_fail: fail.map_or("", ord_name),
+            val,
+            ok,
+            args: [0; 4],
+            file,
+        }
+    }
+
+    #[repr(transparent)]
+    pub struct AtomicBool(sa::AtomicBool);
+    impl AtomicBool {
+        pub const fn new(v: bool) -> Self {
+            AtomicBool(sa::AtomicBool::new(v))
+        }
+        #[track_caller]
+        #[inline]
+        pub fn load(&self, o: Ordering) -> bool {
+            let Some(s) = sink() else {
+                return self.0.load(o);
+            };
+            let (a, f) = (self as *const _ as usize, Location::caller().file());
+            s.pre(&ev(a, "load", o, None, 0, true, f));
+            let v = self.0.load(o);
+            s.post(&ev(a, "load", o, None, v as u64, true, f));
+            v
+        }
+        #[track_caller]
+        #[inline]
+        pub fn store(&self, v: bool, o: Ordering) {
+            let Some(s) = sink() else {
+                return self.0.store(v, o);
+            };
+            let (a, f) = (self as *const _ as usize, Location::caller().file());
+            s.pre(&ev(a, "store", o, None, v as u64, true, f));
+            self.0.store(v, o);
+            s.post(&ev(a, "store", o, None, v as u64, true, f));
+        }
+        #[inline]
+        pub fn get_mut(&mut self) -> &mut bool {
+            self.0.get_mut()
+        }
+    }
+
+    #[repr(transparent)]
+    pub struct AtomicU64(sa::AtomicU64);
+    impl AtomicU64 {
+        pub const fn new(v: u64) -> Self {
+            AtomicU64(sa::AtomicU64::new(v))
+        }
+        #[track_caller]
+        #[inline]
+        pub fn load(&self, o: Ordering) -> u64 {
+            let Some(s) = sink() else {
+                return self.0.load(o);
+            };
+            let (a, f) = (self as *const _ as usize, Location::caller().file());
+            s.pre(&ev(a, "load", o, None, 0, true, f));
+            let v = self.0.load(o);
+            s.post(&ev(a, "load", o, None, v, true, f));
+            v
+        }
+        #[track_caller]
+        #[inline]
+        pub fn fetch_add(&self, d: u64, o: Ordering) -> u64 {
+            let Some(s) = sink() else {
+                return self.0.fetch_add(d, o);
+            };
+            let (a, f) = (self as *const _ as usize, Location::caller().file());
+            let mut e = ev(a, "fetch_add", o, None, 0, true, f);
+            e.args[0] = d;
+            s.pre(&e);
+            let v = self.0.fetch_add(d, o);
+            e.val = v;
+            s.post(&e);
+            v
+        }
+    }
+
+    #[repr(transparent)]
+    pub struct AtomicPtr<T>(sa::AtomicPtr<T>);
+    impl<T> AtomicPtr<T> {
+        pub const fn new(p: *mut T) -> Self {
+            AtomicPtr(sa::AtomicPtr::new(p))
+        }
+        #[track_caller]
+        #[inline]
+        pub fn load(&self, o: Ordering) -> *mut T {
+            let Some(s) = sink() else {
+                return self.0.load(o);
+            };
+            let (a, f) = (self as *const _ as usize, Location::caller().file());
+            s.pre(&ev(a, "load", o, None, 0, true, f));
+            let v = self.0.load(o);
+            s.post(&ev(a, "load", o, None, v as usize as u64, true, f));
+            v
+        }
+        #[track_caller]
+        #[inline]
+        pub fn compare_exchange(
+            &self,
+            cur: *mut T,
+            new: *mut T,
+            ok: Ordering,
+            fail: Ordering,
+        ) -> Result<*mut T, *mut T> {
+            let Some(s) = sink() else {
+                return self.0.compare_exchange(cur, new, ok, fail);
+            };
+            let (a, f) = (self as *const _ as usize, Location::caller().file());
+            let mut e = ev(a, "cas", ok, Some(fail), 0, true, f);
+            e.args[0] = new as usize as u64;
+            s.pre(&e);
+            let r = self.0.compare_exchange(cur, new, ok, fail);
+            e.ok = r.is_ok();
+            e.val = match r {
+                Ok(p) | Err(p) => p as usize as u64,
+            };
+            s.post(&e);
+            r
+        }
+        #[inline]
+        pub fn get_mut(&mut self) -> &mut *mut T {
+            self.0.get_mut()
+        }
+    }
+}
+
+/// The crate-private lock-free vector behind [`crate::Injector`].
+pub struct BoxcarVec<T>(crate::boxcar::Vec<T>);
+
+impl<T> BoxcarVec<T> {
+    pub fn with_capacity(capacity: u32, columns: u32) -> Self {
+        BoxcarVec(crate::boxcar::Vec::with_capacity(capacity, columns))
+    }
+    pub fn push(&self, value: T, fill_columns: impl FnOnce(&T, &mut [crate::Utf32String])) -> u32 {
+        self.0.push(value, fill_columns)
+    }
+    pub fn extend<I>(&self, values: I, fill_columns: impl Fn(&T, &mut [crate::Utf32String]))
+    where
+        I: IntoIterator<Item = T> + ExactSizeIterator,
+    {
+        self.0.extend(values, fill_columns)
+    }
+    pub fn get(&self, index: u32) -> Option<crate::Item<'_, T>> {
+        self.0.get(index)
+    }
+    pub fn count(&self) -> u32 {
+        self.0.count()
+    }
+    /// `(index, item)` for the sequential snapshot iterator starting at `start`
+    pub fn snapshot(&self, start: u32) -> Vec<(u32, Option<crate::Item<'_, T>>)> {
+        unsafe { self.0.snapshot(start).collect() }
+    }
+    /// `Location::of(index)` as (bucket, bucket_len, entry)
+    pub fn location(index: u32) -> (u32, u32, u32) {
+        crate::boxcar::location_of(index)
+    }
+}
+
+/// The crate-private cancellable parallel sort.
+pub fn par_quicksort<T: Send, F: Fn(&T, &T) -> bool + Sync>(
+    v: &mut [T],
+    is_less: F,
+    canceled: &atomic::AtomicBool,
+) -> bool {
+    crate::par_sort::par_quicksort(v, is_less, canceled)
+}
+
+/// Addresses of the atomics a `Nucleo` instance shares with its worker, and of its current item vector.
+pub struct NucleoAddrs {
+    pub canceled: usize,
+    pub should_notify: usize,
+    pub inflight: usize,
+    pub buckets: usize,
+    pub nbuckets: usize,
+}
+
+pub fn nucleo_addrs<T: Sync + Send + 'static>(n: &crate::Nucleo<T>) -> NucleoAddrs {
+    let (inflight, buckets, nbuckets) = n.items.verif_addrs();
+    NucleoAddrs {
+        canceled: &*n.canceled as *const _ as usize,
+        should_notify: &*n.should_notify as *const _ as usize,
+        inflight,
+        buckets,
+        nbuckets,
+    }
+}
+
+impl<T> BoxcarVec<T> {
+    /// (address of the `inflight` counter, address of the first bucket pointer, number of buckets)
+    pub fn addrs(&self) -> (usize, usize, usize) {
+        self.0.verif_addrs()
+    }
+}
